@@ -1257,3 +1257,41 @@ pub(crate) enum CompilationItem<W, R, T> {
     Overload(Vec<TracedOverload<W, R, T>>),
     Type(Arc<XType>),
 }
+
+#[cfg(feature = "verif")]
+impl<'p, W, R, T> CompilationScope<'p, W, R, T> {
+    /// declared/inferred static type of a variable of this scope
+    pub(crate) fn verif_variable_type(&self, name: &Identifier) -> Option<Arc<XType>> {
+        let cell_idx = self.variables.get(name)?;
+        match &self.cells[*cell_idx] {
+            Cell::Variable { t, .. } => Some(t.clone()),
+            _ => None,
+        }
+    }
+
+    pub(crate) fn verif_variable_names(&self) -> Vec<Identifier> {
+        self.variables.keys().cloned().collect()
+    }
+
+    /// (name, static overload specs, number of dynamic overloads)
+    pub(crate) fn verif_functions(&self) -> Vec<(Identifier, Vec<XFuncSpec>, Vec<&'static str>)> {
+        self.functions
+            .iter()
+            .map(|(name, overloads)| {
+                let mut specs = vec![];
+                let mut dynamic = vec![];
+                for ov in overloads {
+                    match ov {
+                        Overload::Static { spec, .. } => specs.push(spec.clone()),
+                        Overload::Factory(desc, _) => dynamic.push(*desc),
+                    }
+                }
+                (*name, specs, dynamic)
+            })
+            .collect()
+    }
+
+    pub(crate) fn verif_type_names(&self) -> Vec<(Identifier, Arc<XType>)> {
+        self.types.iter().map(|(k, v)| (*k, v.clone())).collect()
+    }
+}
